@@ -267,6 +267,7 @@ def drive(ctx, name, area, n, shards=None, params=None, binary=None, extra_args=
 VALIDATE_CFG = "INIT Init\nNEXT Next\nINVARIANT WriteOut\nCHECK_DEADLOCK FALSE\n"
 
 
+TRACE_PREP = {}     # trace module -> function(trace file, run dir) -> {file name: path} of generated inputs
 TRACE_CFG = {}      # trace module -> extra cfg lines (constants of the specification it extends)
 
 
@@ -281,7 +282,10 @@ def tlc_validate(ctx, name, module, files, timeout=3600, cfg=None, depth=0, coun
         if os.path.getsize(f) == 0:
             continue
         d = ctx.dir("%s.val%d" % (name, k))
-        procs.append((f, d, tlc_start(d, module, cfg, ["trace/%s.tla" % module], 1, (), {"trace.ndjson": f}, timeout)))
+        inputs = {"trace.ndjson": f}
+        if module in TRACE_PREP:        # modules generated from the trace itself (spelling tables)
+            inputs.update(TRACE_PREP[module](f, d))
+        procs.append((f, d, tlc_start(d, module, cfg, ["trace/%s.tla" % module], 1, (), inputs, timeout)))
     results, states, gen, events = [], 0, 0, 0
     for f, d, p in procs:
         res = tlc_finish(p, d)
